@@ -49,6 +49,10 @@ type InheritCfg struct {
 	// several templates of one execution.
 	FilterFirst bool `json:"filter_first,omitempty"`
 	ExtendsLast bool `json:"extends_last,omitempty"`
+	// FrameAlias[l] = k+1 > 0: level l imports block "frame" of template "u"
+	// under the name of block k (a different name at each level, colliding with
+	// blocks the chain defines itself); 0 = no such alias at that level.
+	FrameAlias []int `json:"frame_alias,omitempty"`
 }
 
 var blockNames = []string{"a", "b", "c", "d"}
@@ -86,6 +90,11 @@ func BuildInherit(c *InheritCfg) *m.Program {
 				if c.UseAlias >= 0 {
 					u.Pairs = [][2]string{{blockNames[c.UseAlias], "x" + blockNames[c.UseAlias]}}
 				}
+				// (not onto the name that the other alias of this tag renames: stick
+				// applies the aliases of one use tag in map order)
+				if lvl < len(c.FrameAlias) && c.FrameAlias[lvl] > 0 && c.FrameAlias[lvl]-1 != c.UseAlias {
+					u.Pairs = append(u.Pairs, [2]string{"frame", blockNames[c.FrameAlias[lvl]-1]})
+				}
 				t.Body = append(t.Body, u)
 			}
 			if c.Outside {
@@ -106,6 +115,11 @@ func BuildInherit(c *InheritCfg) *m.Program {
 					b.Body = append(b.Body, &m.N{K: "block", S: "n" + name, Body: []*m.N{m.NText(fmt.Sprintf("N%d.%s(", lvl, name)), whoCall(), m.NText(")")}})
 				}
 				b.Body = append(b.Body, m.NText(fmt.Sprintf("L%d.%s(", lvl, name)), whoCall())
+				if c.LoopBlock && ni == 1 {
+					// the root renders this block inside a loop: the override sees
+					// the loop's variable and metadata
+					b.Body = append(b.Body, m.NPrint(m.EName("i")), m.NText("/"), m.NPrint(m.EAttr(m.EName("loop"), "index")), m.NPrint(m.EAttr(m.EName("loop"), "last")))
+				}
 				if c.UseAt == lvl && c.UseAlias == ni {
 					b.Body = append(b.Body, m.NPrint(&m.E{K: "blockfn", A: []*m.E{m.EStr("x" + name)}}))
 				}
@@ -157,6 +171,12 @@ func BuildInherit(c *InheritCfg) *m.Program {
 		if c.Nested {
 			u.Body = append(u.Body, &m.N{K: "block", S: "inner", Body: []*m.N{m.NText("U.in("), whoCall(), m.NText(")")}})
 		}
+		for _, fa := range c.FrameAlias {
+			if fa > 0 {
+				u.Body = append(u.Body, &m.N{K: "block", S: "frame", Body: []*m.N{m.NText("U.frame("), whoCall(), m.NText(")")}})
+				break
+			}
+		}
 		p.Tpls = append(p.Tpls, u)
 	}
 	return p
@@ -197,6 +217,15 @@ func GenInherit(t *rapid.T) *InheritCfg {
 		c.UseLevels = rapid.IntRange(1, (1<<uint(c.L-1))-1).Draw(t, "uselevels")
 		if c.UseNames == 0 {
 			c.UseNames = rapid.IntRange(1, (1<<uint(c.Names))-1).Draw(t, "useNames2")
+		}
+	}
+	if (c.UseAt >= 0 || c.UseLevels != 0) && rapid.IntRange(0, 2).Draw(t, "framealias") == 0 {
+		for l := 0; l < c.L-1; l++ {
+			fa := 0
+			if c.UseAt == l || c.UseLevels&(1<<uint(l)) != 0 {
+				fa = rapid.IntRange(0, c.Names).Draw(t, "fa")
+			}
+			c.FrameAlias = append(c.FrameAlias, fa)
 		}
 	}
 	c.FilterFirst = rapid.IntRange(0, 3).Draw(t, "filterfirst") == 0
@@ -329,9 +358,25 @@ func (g *G) incStmt(idx int, depth int) *m.N {
 	n.Only = g.flip("only") || g.forceOnly
 	if g.embedOK[target] && g.flip("embed") {
 		n.K = "embed"
+		taken := map[string]bool{}
 		for _, name := range []string{"a", "b", "c"} {
+			if taken[name] {
+				continue
+			}
 			if g.intn("ov", 0, 2) == 0 {
+				taken[name] = true
 				body := []*m.N{m.NText("OV." + name + "("), g.incObserve()}
+				// a block nested in the override: it belongs to the embed, whatever
+				// blocks of that name the host's own chain has
+				if g.intn("ovnest", 0, 3) == 0 {
+					for _, nn := range []string{"c", "b", "a"} {
+						if !taken[nn] && nn > name {
+							taken[nn] = true
+							body = append(body, &m.N{K: "block", S: nn, Body: []*m.N{m.NText("OVN." + nn + "("), whoCall(), m.NText(")")}})
+							break
+						}
+					}
+				}
 				if depth < 1 && idx > 0 && g.intn("nestembed", 0, 3) == 0 {
 					// an include / embed nested inside the override block
 					body = append(body, g.incStmt(idx, depth+1))
@@ -435,6 +480,11 @@ func (g *G) MacroProgram() *m.Program {
 	ctx, vi := StdCtx(g)
 	p.Ctx = ctx
 	g.vars = vi
+	// the caller has variables named like the macros' parameters: an argument
+	// is evaluated in the caller's scope, whatever the callee calls its parameters
+	for k := 0; k < 4; k++ {
+		p.Ctx = append(p.Ctx, &m.CtxVar{Name: fmt.Sprintf("p%d", k), V: m.Str(fmt.Sprintf("caller-p%d", k))})
+	}
 	lib := &m.Tpl{Name: "lib"}
 	nm := g.intn("nlib", 1, 4)
 	type mi struct {
@@ -501,7 +551,16 @@ func (g *G) MacroProgram() *m.Program {
 				m.NText("/"), m.NPrint(&m.E{K: "mcall", S: pr[0], T: "from", U: pr[1], A: []*m.E{m.ENum(1), m.ENum(2)}}), m.NText(";"))
 		}
 	}
-	arg := func() *m.E { return g.Expr(pickS(g, "aty", []Ty{TInt, TStr, TBool, TNull}), 1) }
+	arg := func() *m.E {
+		switch g.intn("argkind", 0, 29) {
+		case 0, 1, 2, 3, 4, 5, 6:
+			return m.EName(fmt.Sprintf("p%d", g.intn("argp", 0, 3)))
+		case 7:
+			// an unknown macro of the imported set inside an argument list
+			return &m.E{K: "mcall", S: "nosuch", T: "alias", U: "mm", A: []*m.E{m.ENum(1)}}
+		}
+		return g.Expr(pickS(g, "aty", []Ty{TInt, TStr, TBool, TNull}), 1)
+	}
 	call := func() *m.E {
 		lm := pickS(g, "lm", libMacros)
 		na := g.intn("na", 0, 6)
@@ -524,7 +583,12 @@ func (g *G) MacroProgram() *m.Program {
 	}
 	n := g.intn("ncalls", 1, 6)
 	for i := 0; i < n; i++ {
-		switch g.intn("use", 0, 6) {
+		switch g.intn("use", 0, 8) {
+		case 7:
+			// macro calls and plain arguments as arguments of a function and a filter
+			main.Body = append(main.Body, m.NPrint(m.ECall("cat", arg(), call(), arg())))
+		case 8:
+			main.Body = append(main.Body, m.NPrint(m.EFilter("wrap", arg(), call(), arg())))
 		case 0, 1:
 			main.Body = append(main.Body, m.NPrint(call()))
 		case 2:
